@@ -944,9 +944,26 @@ class SymEnum:
             return z3.BoolVal(True)
         return z3.Or([self.k == i for i in ms])
 
+    _EQ_CACHE = {}
+
+    def _eq_str(self, o):
+        key = (id(self.opts), o)
+        ms = self._EQ_CACHE.get(key)
+        if ms is None:
+            ms = tuple(i for i, x in enumerate(self.opts) if x == o)
+            self._EQ_CACHE[key] = ms
+            self._EQ_CACHE[("keep", id(self.opts))] = self.opts   # keep id() stable
+        if not ms:
+            return False
+        if len(ms) == len(self.opts):
+            return True
+        if len(ms) == 1:
+            return SymBool(None, (self.k, "==", ms[0], False))
+        return SymBool(z3.Or([self.k == i for i in ms]))
+
     def __eq__(self, o):
         if isinstance(o, str):
-            return _mkb(self._match(lambda s: s == o))
+            return self._eq_str(o)
         if isinstance(o, SymEnum):
             return self.conc() == o.conc()
         if isinstance(o, (SymStr, SymChar)):
@@ -977,11 +994,35 @@ class SymEnum:
         e = E()
         if e.eval_model is not None:
             return self.opts[e.eval_model.eval(self.k, model_completion=True).as_long()]
-        for i in range(len(self.opts) - 1):
-            if e.decide(self.k == i):
-                return self.opts[i]
-        e.assume(self.k == len(self.opts) - 1)
-        return self.opts[-1]
+        return self.opts[e.concretise(self.k, limit=len(self.opts) + 1)]
+
+    # pointwise string functions keep the value symbolic (no fork): error messages etc.
+    _MAP_CACHE = {}
+
+    def _map(self, fn, key):
+        ck = (id(self.opts), key)
+        hit = self._MAP_CACHE.get(ck)
+        if hit is None:
+            hit = (self.opts, [fn(o) for o in self.opts])
+            self._MAP_CACHE[ck] = hit
+        return SymEnum(self.k, hit[1])
+
+    def _zip(self, other, fn, key):
+        ck = (id(self.opts), id(other.opts), key)
+        hit = self._MAP_CACHE.get(ck)
+        if hit is None:
+            hit = (self.opts, other.opts, [fn(a, b) for a, b in zip(self.opts, other.opts)])
+            self._MAP_CACHE[ck] = hit
+        return SymEnum(self.k, hit[2])
+
+    def replace(self, a, b, *r):
+        if isinstance(a, str) and isinstance(b, str) and not r:
+            return self._map(lambda s: s.replace(a, b), ("replace", a, b))
+        return self.conc().replace(a, b, *r)
+
+    def upper(self): return self._map(lambda s: s.upper(), "upper")
+    def lower(self): return self._map(lambda s: s.lower(), "lower")
+    def strip(self, *a): return self._map(lambda s: s.strip(*a), ("strip",) + a)
 
     def __bool__(self):
         return bool(_mkb(self._match(lambda s: bool(s))))
@@ -993,8 +1034,18 @@ class SymEnum:
     def __repr__(self): return repr(self.conc())
     def __format__(self, f): return format(self.conc(), f)
     def __getitem__(self, k): return self.conc()[k]
-    def __add__(self, o): return self.conc() + o
-    def __radd__(self, o): return o + self.conc()
+    def __add__(self, o):
+        if isinstance(o, str):
+            return self._map(lambda s: s + o, ("add", o))
+        if isinstance(o, SymEnum) and o.k.eq(self.k):
+            return self._zip(o, lambda a, b: a + b, "add")
+        return self.conc() + o
+
+    def __radd__(self, o):
+        if isinstance(o, str):
+            return self._map(lambda s: o + s, ("radd", o))
+        return o + self.conc()
+
     def __lt__(self, o): return self.conc() < (o.conc() if isinstance(o, SymEnum) else o)
     def __gt__(self, o): return self.conc() > (o.conc() if isinstance(o, SymEnum) else o)
     def __le__(self, o): return self.conc() <= (o.conc() if isinstance(o, SymEnum) else o)
